@@ -262,8 +262,22 @@ Record PROTO (s : sys) : Prop := mkPROTO {
   pr_mnrq : mn_rqs_ok (s_core s) = true;
   pr_mnt : forall x t, find_task (c_tasks (s_core s)) x = Some t -> mn_task_ok (s_core s) t = true;
   pr_jr : forall x t, find_task (c_tasks (s_core s)) x = Some t -> jr_ok (s_hq s) t = true;
-  pr_rv : rv_ok (s_core s) = true
+  pr_rvt : forall x t w rv, find_task (c_tasks (s_core s)) x = Some t -> t_state t = Assigned w rv -> rv = 0;
+  pr_rvr : forall r, In r (c_redirects (s_core s)) -> snd (snd r) = 0
 }.
+
+Lemma rv_ok_split c : rv_ok c = true <->
+  (forall t, In t (c_tasks c) -> forall w rv, t_state t = Assigned w rv -> rv = 0) /\
+  (forall r, In r (c_redirects c) -> snd (snd r) = 0).
+Proof.
+  unfold rv_ok. rewrite andb_true_iff, !forallb_forall. split.
+  - intros [H1 H2]. split.
+    + intros t Ht w rv E. specialize (H1 _ Ht). rewrite E in H1. apply N.eqb_eq in H1. exact H1.
+    + intros r Hr. apply N.eqb_eq. apply H2. exact Hr.
+  - intros [H1 H2]. split.
+    + intros t Ht. destruct (t_state t) eqn:E; try reflexivity. apply N.eqb_eq. eapply H1; eassumption.
+    + intros r Hr. apply N.eqb_eq. apply H2. exact Hr.
+Qed.
 
 Theorem proto_ok_PROTO s : proto_ok s = true -> PROTO s.
 Proof.
@@ -280,7 +294,8 @@ Proof.
   - exact H5.
   - intros x t Ht. apply H6. exact (proj1 (find_task_some _ _ _ Ht)).
   - intros x t Ht. apply H7. exact (proj1 (find_task_some _ _ _ Ht)).
-  - exact H8.
+  - intros x t w rv Ht E. apply rv_ok_split in H8. destruct H8 as [R1 _]. eapply R1; [exact (proj1 (find_task_some _ _ _ Ht)) | exact E].
+  - apply rv_ok_split in H8. apply H8.
 Qed.
 
 (** The converse needs the task map to be a map (sorted by id; part of [INV]). *)
@@ -295,7 +310,7 @@ Qed.
 
 Theorem PROTO_proto_ok s : StronglySorted tlt (map t_id (c_tasks (s_core s))) -> PROTO s -> proto_ok s = true.
 Proof.
-  intros Hts [H9 H1 H2 H3 H4 H5 H6 H7 H8]. unfold proto_ok. rewrite !andb_true_iff, !forallb_forall.
+  intros Hts [H9 H1 H2 H3 H4 H5 H6 H7 R1 R2]. unfold proto_ok. rewrite !andb_true_iff, !forallb_forall.
   repeat split.
   - apply ns_sorted_iff. exact H9.
   - intros p Ip. unfold words_ok. rewrite forallb_forall. intros t It. unfold task_at_ok.
@@ -306,7 +321,7 @@ Proof.
   - exact H5.
   - intros t It. eapply H6. apply in_find_task'; eassumption.
   - intros t It. eapply H7. apply in_find_task'; eassumption.
-  - exact H8.
+  - apply rv_ok_split. split; [|exact R2]. intros t It w rv E. eapply R1; [apply in_find_task'; eassumption | exact E].
 Qed.
 
 (** The initial state. *)
